@@ -84,6 +84,10 @@ def coq_make(targets=None, timeout=1500):
     return rc, out
 
 
+def model_targets():
+    return ["Generated.vo"] + sorted("Model/" + f[:-2] + ".vo" for f in os.listdir(os.path.join(COQ, "Model")) if f.endswith(".v"))
+
+
 def model_sources():
     return sorted(os.path.join(COQ, "Model", f) for f in os.listdir(os.path.join(COQ, "Model")) if f.endswith(".v")) + \
         [os.path.join(COQ, "Generated.v"), os.path.join(COQ, "Extract.v"), os.path.join(VERIF, "ocaml", "driver.ml")]
